@@ -12,14 +12,7 @@ exporter: whatever order each hash map yields its entries in, the exported messa
 -/
 namespace L21.Determ
 
-/-- the sort key of `Layers::sorted`: (layer number, slot-map key) -/
-abbrev LKey := Int × Nat
-
-def lkLe (a b : LKey) : Bool := decide (a.1 < b.1) || (decide (a.1 = b.1) && decide (a.2 ≤ b.2))
-
-/-- `Layers::sorted` with the code's tie-break -/
-def sortedK {α : Type} (entries : List (LKey × α)) : List (LKey × α) :=
-  entries.mergeSort (fun a b => lkLe a.1 b.1)
+/-! `LKey`, `lkLe`, `sortedK` (the sort key of `Layers::sorted`: layer number, then slot-map key) live in `Model/Determ.lean` -/
 
 theorem lkLe_trans (a b c : LKey) : lkLe a b = true → lkLe b c = true → lkLe a c = true := by
   simp only [lkLe, Bool.or_eq_true, Bool.and_eq_true, decide_eq_true_eq]; omega
